@@ -91,6 +91,8 @@ def vsrc(v):
         if v in (math.inf, -math.inf):
             return "float('inf')" if v > 0 else "float('-inf')"
         return repr(v)
+    if type(v) is int and abs(v) >= 10 ** 4000:
+        return hex(v)                  # repr() of such an int hits CPython's int-to-str digit limit
     if type(v) in (int, str, bytes):
         return repr(v)
     if type(v) is uuid.UUID:
@@ -148,7 +150,7 @@ ZOO_NS = {"_IntSub": _IntSub, "_StrSub": _StrSub, "_FloatSub": _FloatSub, "_List
 NS.update(ZOO_NS)
 
 _ZOO_SRC = [
-    "float('inf')", "float('-inf')", "float('nan')", "10**400", "-10**400", "Decimal('1.5')",
+    "float('inf')", "float('-inf')", "float('nan')", "10**400", "-10**400", "10**5000", "Decimal('1.5')",
     "Decimal('NaN')", "Fraction(1, 3)", "complex(1, 2)", "(1, 2)", "()", "{1, 2}", "frozenset()",
     "bytearray(b'ab')", "memoryview(b'ab')", "range(3)", "_IntSub(7)", "_StrSub('ab')",
     "_FloatSub(1.5)", "_ListSub([1])", "_DictSub({'a': 1})", "_Color.RED", "_IntColor.RED",
